@@ -26,6 +26,7 @@ def assigned_names(body):
     known mutator methods / subscript stores."""
     names = set()
     mutated = set()
+    resized = set()
 
     class V(ast.NodeVisitor):
         def visit_Assign(self, n):
@@ -59,6 +60,7 @@ def assigned_names(body):
                     base = base.value
                 if isinstance(base, ast.Name):
                     mutated.add(base.id)
+                    resized.add(base.id)
             self.generic_visit(n)
 
         def visit_FunctionDef(self, n):
@@ -83,6 +85,7 @@ def assigned_names(body):
     v = V()
     for st in body:
         v.visit(st)
+    assigned_names.resized = resized
     return names, mutated
 
 
@@ -247,6 +250,7 @@ def _annotated(I, node, env, ann, fname, k, kind, iterable=None):
     ctx = I.ctx
     tag = f"{I.name_of(I.frames[-1].fi)}/loop{k}"
     names, mutated = assigned_names(node.body if kind == "while" else node.body + [ast.Assign(targets=[node.target], value=ast.Constant(0), lineno=0, col_offset=0)])
+    resized = assigned_names.resized
     hidden = {}
     idx_name = "_i"
     # hidden index for `for`
@@ -259,14 +263,25 @@ def _annotated(I, node, env, ann, fname, k, kind, iterable=None):
             enum_start = it.start
             it = it.inner
         if isinstance(it, RangeVal):
-            if it.step != 1:
+            if it.step == 1:
+                lo, hi = it.start, it.stop
+                getter = lambda i: i  # noqa: E731
+            elif it.step == -1:
+                # counting down: the hidden index s._i counts iterations 0..start-stop, the loop variable is start - _i
+                lo, hi = 0, simp(Z(it.start) - Z(it.stop))
+                getter = lambda i, start=it.start: simp(Z(start) - Z(i))  # noqa: E731
+            else:
                 raise OutOfReach("range step in annotated loop")
-            lo, hi = it.start, it.stop
-            getter = lambda i: i  # noqa: E731
         elif isinstance(it, (SBytes, SView)):
             lo, hi = 0, I.bytes_len(it)
             snapshot = I.rope_of(it)
-            getter = lambda i: R.to_int(ctx, R.slice_norm(ctx, snapshot, i, R._add(i, 1)), "little")  # noqa: E731
+
+            def getter(i):
+                v = R.to_int(ctx, R.slice_norm(ctx, snapshot, i, R._add(i, 1)), "little")
+                if not isinstance(v, int):
+                    ctx.assume(z3.And(Z(v) >= 0, Z(v) <= 255))  # an element of a bytes-like object
+                return v
+
         elif isinstance(it, SList):
             lo, hi = 0, it.length
             getter = it.elem
@@ -319,7 +334,8 @@ def _annotated(I, node, env, ann, fname, k, kind, iterable=None):
             # mutated container: must be havocked through an explicit rule
             if isinstance(cur, SBytes) and cur.kind == "bytearray":
                 t = fresh_bytes(n)
-                ctx.assume(blen(t) >= 0)
+                # element stores keep the length; append/extend/pop/insert do not
+                ctx.assume(blen(t) >= 0 if n in resized else blen(t) == Z(cur.rope.length()))
                 cur.rope = R.Rope([R.full_atom(t)])
             else:
                 raise OutOfReach(f"loop {tag}: {n} ({type(cur).__name__}) is mutated in the body; the annotation needs a havoc rule for it")
